@@ -169,10 +169,16 @@ def side_case(seed, tr):
     scale = 0.3
     S = [s * scale for s in S]
     L = [l * scale for l in L]
+    if clause == 'step' and not hom and rng.random() < 0.2:
+        # a weak diagonal single-site term on the last site (its propagator is within 1e-5 of the identity, not equal to it)
+        S[-1] = np.diag([0.0] + [rng.uniform(2e-5, 1e-4) for _ in range(dims[-1] - 1)]).astype(S[-1].dtype)
+        desc_weak = True
+    else:
+        desc_weak = False
     if hom:
         S = [S[0]] * order
         L = [L[0]] * order
-    desc = dict(scheme=scheme, clause=clause, dims=dims, hom=hom, complex=cplx)
+    desc = dict(scheme=scheme, clause=clause, dims=dims, hom=hom, complex=cplx, weak_last_site=desc_weak)
     N = int(np.prod(dims))
     x0 = gen_tt(rng, dims, [1] * order, max_ranks(dims), cplx, 'float')
     if clause == 'unit':
